@@ -388,12 +388,14 @@ Definition accepted : schema -> drule -> bool := accepted_gen acl_all_requires_u
 Definition install (S : schema) (decl : list drule) : schema :=
   mkSchema (stypes S)
     (map (fun w => mkWs (wname w) (wanc w) (map (eff_rule S) (filter (fun d => dws d =? wname w) decl))) (swss S)).
-(* the oracle reads ALL as "every operation applicable to the resource asked about", ALL(columns) (VSQL
-   only) as every such operation that a column list applies to: INSERT, UPDATE, SELECT *)
+(* VSQL documents `ALL` on tables as SELECT, INSERT, UPDATE (sql_example_app/pmain/package.vsql:
+   "GRANT SELECT,INSERT,UPDATE ON ALL TABLES ... equivalent to GRANT ALL ON ALL TABLES", likewise REVOKE) *)
+Definition vsql_all_documented : list N := [acl_op_select; acl_op_insert; acl_op_update].
+(* the oracle reads an ALL passed to the builder API (GrantAll / RevokeAll) as "every operation applicable to
+   the resource asked about", an ALL [(columns)] written in VSQL as the documented list *)
 Definition spec_rules (S : schema) (decl : list drule) (w : N) (t : typ) : list rule :=
   flat_map (fun w' => map (fun d => if dall d
-                                    then mkRule (if is_nil (rfields (drl d)) then taclops t
-                                                 else filter (fun o => mem o [acl_op_insert; acl_op_update; acl_op_select]) (taclops t))
+                                    then mkRule (if dsrc d then vsql_all_documented else taclops t)
                                                 (rallow (drl d)) (rflt (drl d)) (rfields (drl d)) (rprin (drl d))
                                     else drl d)
                           (filter (fun d => dws d =? w') decl)) (ws_order S w).
